@@ -271,3 +271,31 @@ func (p *PFCPIface) VerifUP4FreeIDs() map[string][]uint64 {
 	}
 	return out
 }
+
+// VerifSetSeqCursor places the sequence-number counter of every registered PFCP
+// connection so that the next request the agent originates on it carries the
+// number next (wrap-around of the 24 bits PFCP has on the wire: more than 16
+// million heartbeats / reports into the life of an association). Returns the
+// number of connections whose counter this probe could set.
+func (p *PFCPIface) VerifSetSeqCursor(next uint32) int {
+	if p.node == nil {
+		return 0
+	}
+	n := 0
+	p.node.pConns.Range(func(_, v interface{}) bool {
+		sn := verifField(v, "seqNum")
+		if !sn.IsValid() || sn.Kind() != reflect.Struct || !sn.CanAddr() {
+			return true
+		}
+		f := verifField(sn.Addr().Interface(), "seq")
+		if f.IsValid() && f.CanSet() {
+			switch f.Kind() {
+			case reflect.Uint32, reflect.Uint64, reflect.Uint:
+				f.SetUint(uint64(next - 1))
+				n++
+			}
+		}
+		return true
+	})
+	return n
+}
